@@ -494,3 +494,145 @@ def collect_edges_arg_sets():
             g._scenario = {"signals": signals, "resolved": {k: v for k, v in resolved.items() if v}}
             out.append({"signal_graph": g, "signal_usage": usage, "entities": {x: _Placement("arithmetic-combinator") for x in "ABCD"}})
     return out
+
+
+# =================================================================================================
+# ConnectionPlanner.plan_connections — the order of the wire plan (C08 / C12 / C03): the circuit edges are exactly the signal graph's,
+# minus the edges of internal feedback signals; memory feedback edges stay circuit edges but get no planned colour (they are wired red by
+# the memory builder); every other edge gets the colour locked for (its source, its merge) if there is one, else the colour planned for
+# (its source, its signal), else red; the wires that were in the plan before (memory / latch wiring) are restored, each exactly once,
+# AFTER the new wires were populated; the answer is True exactly when nothing flagged a routing failure.
+# Evaluated on the REAL method (sub-steps with their own contracts replaced by recorders; collect_circuit_edges and plan_wire_colors real)
+# over an enumerated box: bounded.
+# =================================================================================================
+PCQ = "dsl_compiler/src/layout/connection_planner.py::ConnectionPlanner.plan_connections"
+
+
+def _plan_post(a, res):
+    me = a.self
+    sc = me._scenario
+    edges = sc["edges"]   # (sig, source, sink, merge, internal, memfb)
+    want_circuit = {(sig, s, t) for (sig, s, t, m, internal, memfb) in edges if not internal}
+    got_circuit = {(e.logical_signal_id, e.source_entity_id, e.sink_entity_id) for e in me._circuit_edges}
+    ok = [got_circuit == want_circuit]
+    want_map = {}
+    for (sig, s, t, m, internal, memfb) in edges:
+        if internal or memfb:
+            continue
+        if m is not None and (s, m) in sc["edge_locks"]:
+            want_map[(s, t, sig)] = sc["edge_locks"][(s, m)]
+        else:
+            want_map[(s, t, sig)] = me._node_color_assignments.get((s, sig), "red")
+    ok.append(me._edge_color_map_at_populate == want_map)
+    ok.append(me._trace[:2] == ["poles", "self-feedback"] and me._trace.count("populate") == 1)
+    restored = [x for x in me._trace if isinstance(x, tuple) and x[0] == "restore"]
+    ok.append([x[1] for x in restored] == sc["preserved"])
+    ok.append(all(me._trace.index(x) > me._trace.index("populate") for x in restored))
+    ok.append(me._trace[-1] == "validate")
+    failed = sc["fails"] == "populate" or (sc["fails"] == "restore" and bool(sc["preserved"]))
+    ok.append(res is (not failed))
+    ok.append(me._wires_at_populate == [])   # the new wires are planned on an empty list (the old ones come back afterwards)
+    return all(ok)
+
+
+plan_connections_c = Contract(qualname=PCQ, params={"self": ty.TOpaque("planner"), "signal_graph": ty.TOpaque("graph"), "entities": ty.TOpaque("entities"),
+                                                    "wire_merge_junctions": ty.TOpaque("j"), "locked_colors": ty.TOpaque("l"), "merge_membership": ty.TOpaque("m")},
+                              ensures=[("circuit edges = graph edges minus internal feedback; colours: edge lock > planned colour > red, none for memory feedback; earlier wires restored once each "
+                                        "after populate; True iff no routing failure", _plan_post)],
+                              verify=False, properties=("C08", "C12", "C03"), note="evaluated on the real method over an enumerated box (bounded stand-in)")
+CONTRACTS.append(plan_connections_c)
+
+
+def plan_connections_arg_sets():
+    from dsl_compiler.src.layout.connection_planner import ConnectionPlanner
+    from dsl_compiler.src.layout.layout_plan import LayoutPlan, WireConnection
+    from dsl_compiler.src.layout.signal_graph import SignalGraph
+
+    class _Diag:
+        def info(self, *a, **k):
+            pass
+        warning = error = info
+
+    class _Recorder(ConnectionPlanner):
+        def _register_power_poles_as_relays(self):
+            self._trace.append("poles")
+
+        def _add_self_feedback_connections(self):
+            self._trace.append("self-feedback")
+
+        def _expand_merge_edges(self, base_edges, junctions, entities, signal_graph):
+            out = []
+            import dataclasses
+            for e in base_edges:
+                out.append(dataclasses.replace(e, originating_merge_id=self._scenario["merge_of"].get((e.logical_signal_id, e.source_entity_id, e.sink_entity_id))))
+            return out
+
+        def _is_internal_feedback_signal(self, name):
+            return name in self._scenario["internal_signals"]
+
+        def _is_memory_feedback_edge(self, s, t, name):
+            return (name, s, t) in self._scenario["memfb"]
+
+        def _compute_edge_locked_colors(self, edges, membership, signal_graph=None):
+            return dict(self._scenario["edge_locks"])
+
+        def _compute_network_ids(self, edges):
+            self._trace.append("network-ids")
+
+        def _log_multi_source_conflicts(self, *a, **k):
+            pass
+
+        def _log_color_summary(self):
+            pass
+
+        def _log_unresolved_conflicts(self):
+            pass
+
+        def _populate_wire_connections(self):
+            self._trace.append("populate")
+            self._edge_color_map_at_populate = dict(self._edge_color_map)
+            self._wires_at_populate = list(self.layout_plan.wire_connections)
+            if self._scenario["fails"] == "populate":
+                self._routing_failed = True
+
+        def _restore_preserved_connection(self, connection):
+            self._trace.append(("restore", connection.signal_name))
+            if self._scenario["fails"] == "restore":
+                self._routing_failed = True
+
+        def _validate_relay_coverage(self):
+            self._trace.append("validate")
+
+    class _Usage(dict):
+        pass
+
+    out = []
+    # three producers a, b, m (m: a memory gate), two consumers s, t; signal ids = resolved names here
+    base = [("signal-A", "a", "s"), ("signal-A", "b", "s"), ("signal-B", "a", "t"), ("signal-M", "m", "m"), ("__feedback_x", "m", "t")]
+    for subset in itertools.chain.from_iterable(itertools.combinations(base, k) for k in (1, 2, 3, 5)):
+        for merge_mode in ("none", "first-in-merge-locked", "first-in-merge-unlocked"):
+            for node_lock in (False, True):
+                for fails in (False, "populate", "restore"):
+                    for n_preserved in (0, 2):
+                        g = SignalGraph()
+                        for sig, s, t in subset:
+                            g.set_source(sig, s)
+                            g.add_sink(sig, t)
+                        plan = LayoutPlan()
+                        for nid in ("a", "b", "m", "s", "t"):
+                            plan.create_and_add_placement(ir_node_id=nid, entity_type="arithmetic-combinator", position=(0, 0), footprint=(1, 2), role="x", debug_info={})
+                        preserved = [f"kept-{i}" for i in range(n_preserved)]
+                        for nm in preserved:
+                            plan.add_wire_connection(WireConnection(source_entity_id="m", sink_entity_id="m", signal_name=nm, wire_color="red"))
+                        cp = object.__new__(_Recorder)
+                        cp.layout_plan, cp.diagnostics, cp.signal_usage = plan, _Diag(), _Usage()
+                        cp._trace = []
+                        first = subset[0]
+                        merge_of = {first: "merge_1"} if merge_mode != "none" else {}
+                        edge_locks = {(first[1], "merge_1"): "green"} if merge_mode == "first-in-merge-locked" else {}
+                        edges = [(sig, s, t, merge_of.get((sig, s, t)), sig.startswith("__feedback"), sig == "signal-M") for sig, s, t in subset]
+                        cp._scenario = {"edges": edges, "merge_of": merge_of, "edge_locks": edge_locks, "internal_signals": {"__feedback_x"}, "memfb": {("signal-M", "m", "m")},
+                                        "preserved": preserved, "fails": fails}
+                        locked = {("a", "signal-A"): "green"} if node_lock else {}
+                        out.append({"self": cp, "signal_graph": g, "entities": plan.entity_placements, "wire_merge_junctions": {}, "locked_colors": locked, "merge_membership": {}})
+    return out
